@@ -172,6 +172,7 @@ var (
 	windowColliders = findColliders("ad", "", 6)       // 5-byte shortcut windows
 	hostColliders   = findColliders("h", ".com", 6)    // host names
 	domainColliders = findColliders("d", ".org", 4)    // $domain values
+	seqTextColliders = findColliders("x^", "^", 4)     // whole rule texts that land in the sequential table
 )
 
 func init() {
